@@ -172,15 +172,15 @@ ADDENDA2 = {
  "C19": "Later: cap AddPoint / AddCap / Union / Expanded proved for binary64 itself on Normalize-grade vectors, exact Contains / Intersects / Complement readings refuted and proved up to explicit allowances (C19_CapBinary64.lean).",
  "C03": "Later: the no -0 coordinate restriction is removed; FullExactness is a theorem for all unit-ish finite points with Go == (C03_AllZeros.lean).",
  "C17": "Later: vertex, interior and prefilter error bounds PROVED on UnitPt / EdgeOK, two-sided under the wedge margin (C17_Error.lean); the proof found that MaxPointError is not a bound for all Normalize outputs (known finding D57). Edge-pair minimum = least of the four endpoint-to-arc distances and UpdateMaxDistance through the antipode proved in exact geometry, float glue partial (C17_Pairs.lean, C17_PairsFloat.lean). Edge pairs two-sided for every exit, Project under ProjMargin, EdgePairClosestPoints both branches (C17_Pairs2.lean).",
- "C08": "Later: for a point target the search theorems hold with NO abstract WorldOK at an explicit slack 2^-44 (C08_World.lean), from C12 distance_lower_bound, the C17 edge contract and I1; WorldOK / CellLB as first stated are false of the real code and were replaced by the true SlackWorld. RegionsNested proved; x - e <= x is false for ChordAngle.Sub in general, the restricted law is proved for MaxError 0, +Inf and >= 2^-400 (C08_World2.lean). Edge targets likewise (C08_EdgeTarget.lean).",
- "C04": "Later: edge clipping regenerated and proved equal to the build model (translator_c04). Constructor / rotation / reversal theorems for all valid loops and parity theorems for tilings (C04_Tiling.lean). Convex-cell lemma and disjointness of neighbouring cells proved; 'exactly once' unconditional for the six faces and all level-1 cells (C04_Tiling2*.lean).",
+ "C08": "Later: for a point target the search theorems hold with NO abstract WorldOK at an explicit slack 2^-44 (C08_World.lean), from C12 distance_lower_bound, the C17 edge contract and I1; WorldOK / CellLB as first stated are false of the real code and were replaced by the true SlackWorld. RegionsNested proved; x - e <= x is false for ChordAngle.Sub in general, the restricted law is proved for MaxError 0, +Inf and >= 2^-400 (C08_World2.lean). Edge targets likewise (C08_EdgeTarget.lean). Cell targets and furthest-edge queries for point / edge targets (C08_MoreTargets, C08_Furthest, C08_FurthestEdge).",
+ "C04": "Later: edge clipping regenerated and proved equal to the build model (translator_c04). Constructor / rotation / reversal theorems for all valid loops and parity theorems for tilings (C04_Tiling.lean). Convex-cell lemma and disjointness of neighbouring cells proved; 'exactly once' unconditional for the six faces and all level-1 cells (C04_Tiling2*.lean). At most one level-k cell of a face contains a point, all k <= 30 (C04_Grid.lean).",
  "C05": "Later: Cell / CellUnion region predicates tied to the region values of the end-to-end theorems, float region predicates pinned (translator_c07). Defect D56 (Rect.IntersectsCell, edge longitude span) found by the thorough tier and repaired; generator family lens. Cap regions: IntersectsCell / ContainsCell modelled bit-exactly, exact algorithm an iff, float soundness with slack 2^-44, coverings end to end (C05_Cap.lean); the proof found defect D59 (edge rejection near a hemisphere), repaired.",
  "C06": "Later: I1 proved without MergeComplete, I3 and 'queries on the built index = brute force' proved under three named statements of exact geometry (C06_BuildI3.lean); "
         "index construction and padded cells regenerated (translator_c04); defect D52 (shape-id sentinel after Remove) found and repaired; the check also runs the containment paths. TrackSound's float clause holds for cells with -0 coordinates too (C06_AllZeros.lean). I1 of the built index is PROVED for real uv geometry from the float error analysis of the clipping (build_I1_float, C06_ClipFloat.lean). Face clipping: FaceEdgesOK proved except the re-projection branch; spherical I1 for points and same-face edges (C06_FaceClip.lean); finding D60 (PointCross for nearly antipodal arguments). D60 repaired (exact fallback in PointCross); pointCross_exact_normed (C06_PointCross.lean).",
  "C07": "Later: the relation walk and the polygon relations regenerated as step equations of the model (translator_c07, 357 ties). Walk answers: true is sound, false is exact, raw boolean = crossing or wedge or centre shortcut; compareBoundary walk = exact relation in full, contains / intersects under the single necessary hypothesis CenterSound (C07_WalkSound.lean).",
  "C09": "Later: all 33 decoder functions regenerated as Dec-monad programs and proved EQUAL to the model decoders of the round-trip theorems (translator_c15b).",
  "C10": "Later: bound functions tied / pinned (translator_c07).",
- "C12": "Later: the repaired margin 2*dblEpsilon of Cell.ContainsPoint is PROVED sufficient for every float point and every ancestor (C12_Margin.lean; exactly tight in the proof, 1.25 attained). Point-target Distance lower bound (2^-46) and MaxDistance upper bound (2^-45) PROVED for all valid cells and unit-ish points; the proof found defect D58 (edge branch decided on rounding noise near the pole of an edge's great circle), repaired; on the repaired code ATTAINED is proved in all branches without proviso (C12_Distance.lean: distance_lower_bound 2^-45, maxDistance_upper_bound 2^-44, distance_attained). BoundaryDistance, DistanceToEdge, DistanceToCell lower bounds / attained (C12_Distance2.lean, new bit-exact model CellEdgeM) and CapBound contains the exact cell (C12_CapBound.lean) proved for all valid cells. MaxDistanceToEdge / MaxDistanceToCell upper bounds for every branch (C12_MaxDistance2.lean).",
+ "C12": "Later: the repaired margin 2*dblEpsilon of Cell.ContainsPoint is PROVED sufficient for every float point and every ancestor (C12_Margin.lean; exactly tight in the proof, 1.25 attained). Point-target Distance lower bound (2^-46) and MaxDistance upper bound (2^-45) PROVED for all valid cells and unit-ish points; the proof found defect D58 (edge branch decided on rounding noise near the pole of an edge's great circle), repaired; on the repaired code ATTAINED is proved in all branches without proviso (C12_Distance.lean: distance_lower_bound 2^-45, maxDistance_upper_bound 2^-44, distance_attained). BoundaryDistance, DistanceToEdge, DistanceToCell lower bounds / attained (C12_Distance2.lean, new bit-exact model CellEdgeM) and CapBound contains the exact cell (C12_CapBound.lean) proved for all valid cells. MaxDistanceToEdge / MaxDistanceToCell upper bounds for every branch (C12_MaxDistance2.lean). DistanceToEdge / MaxDistanceToEdge attained in every branch; Cell.ContainsPoint implies CapBound().ContainsPoint for level >= 2 (C12_Attained2.lean).",
  "C13": "Later: target objects with their inner state are in the model (C13_Targets.lean), target methods regenerated; footprint obligation for iterator creation sites.",
  "C14": "Later: the footprint of the Go code is a regenerated decidable obligation linked to the proved protocol model (C14_Footprint.lean).",
  "C15": "Later: the IR guards are tied to the regenerated model decoders (C15_Decode). Decoded values are PROVED safe to query through the Shape accessors (decodePolygon_usable) and to re-encode (C15_Usable.lean); new correspondence op c15shape.",
